@@ -338,6 +338,8 @@ type tunnelServerStream struct {
 	sender     sender
 	receiver   receiver[tunnelpb.ClientToServerFrame]
 	halfClosed atomic.Pointer[errHolder]
+	// the reason the stream was finished; the first call to finishStream wins
+	finishErr atomic.Pointer[errHolder]
 
 	// for reading frames from channel, to read message data
 	readMu  sync.Mutex
@@ -632,6 +634,13 @@ func (st *tunnelServerStream) serveStream(md interface{}, srv interface{}) {
 }
 
 func (st *tunnelServerStream) finishStream(err error) {
+	// Record the cause before cancelling the context: cancellation wakes the
+	// handler, whose own (context) error would otherwise race with, and could
+	// replace, the status that actually ended the stream (for example
+	// ResourceExhausted after a flow-control violation).
+	if !st.finishErr.CompareAndSwap(nil, &errHolder{err}) {
+		err = st.finishErr.Load().error
+	}
 	st.cancel()
 	verifYield("server.finishing")
 	st.svr.removeStream(st.streamID)
